@@ -117,7 +117,7 @@ func (c *vLogCase) genMsg(r *vRand, keyPool [][]byte) *Message {
 	if nh > 0 {
 		m.Headers = map[string][]byte{}
 		for i := 0; i < nh; i++ {
-			v := vGenBytes(r, false)
+			v := vGenBytes(r, true) // nil, empty, short, long
 			m.Headers[fmt.Sprintf("h%d", r.intn(3))] = v
 		}
 	}
